@@ -116,6 +116,13 @@ def addElem (sub : Bool) (a b : Int) (off1 off2 : Int) (leftShift : Nat) (m1 s1 
   let raw := if sub then y1 - y2 else y1 + y2
   clamp (mbqm raw mo so + outOff) lo hi
 
+/-- quantised SQUARED_DIFFERENCE of one element pair (`reference_integer_ops` / `squared_difference.cc`) -/
+def sqDiffElem (a b : Int) (off1 off2 : Int) (leftShift : Nat) (m1 s1 m2 s2 mo so : Int) (outOff lo hi : Int) : Int :=
+  let y1 := mbqm ((a + off1) * (2 : Int) ^ leftShift) m1 s1
+  let y2 := mbqm ((b + off2) * (2 : Int) ^ leftShift) m2 s2
+  let d := y1 - y2
+  clamp (mbqm (d * d) mo so + outOff) lo hi
+
 def mulElem (a b : Int) (off1 off2 : Int) (mo so : Int) (outOff lo hi : Int) : Int :=
   clamp (mbqm ((a + off1) * (b + off2)) mo so + outOff) lo hi
 
@@ -485,7 +492,7 @@ def pN (op : OpDef) (g k : Nat) : Nat := (pI op g k).toNat
 def opClass (g : Graph) (op : OpDef) : Option Nat :=
   match op.kind with
   | "CONV_2D" | "DEPTHWISE_CONV_2D" | "FULLY_CONNECTED" | "ADD" | "SUB" | "MUL" | "QUANTIZE" | "LEAKY_RELU" | "TRANSPOSE_CONV"
-  | "HARD_SWISH" => some 0
+  | "HARD_SWISH" | "SQUARED_DIFFERENCE" => some 0
   | "MAX_POOL_2D" | "RELU" | "RELU6" | "RELU_N1_TO_1" | "MINIMUM" | "MAXIMUM" | "RESHAPE" | "SQUEEZE" | "EXPAND_DIMS" => some 2
   | "CONCATENATION" =>
     -- inputs quantised like the output are copied; the others are requantised (approximated class)
@@ -551,6 +558,13 @@ def evalOp (g : Graph) (env : Env) (op : OpDef) : Except String (List Tensor) :=
     let f := fun x y => addElem (op.kind == "SUB") x y (-(g.zp (inId op 0))) (-(g.zp (inId op 1))) (pN op 0 2)
                  (pI op 0 3) (pI op 0 4) (pI op 0 5) (pI op 0 6) (pI op 0 7) (pI op 0 8) (g.zp o) (pI op 0 0) (pI op 0 1)
     return [← binary a b f]
+  | "SQUARED_DIFFERENCE" =>
+    -- params: lo, hi, left shift, m1, s1, m2, s2, mo, so
+    let a ← getIn env op 0; let b ← getIn env op 1
+    let o := outId op 0
+    let f := fun x y => sqDiffElem x y (-(g.zp (inId op 0))) (-(g.zp (inId op 1))) (pN op 0 2)
+                 (pI op 0 3) (pI op 0 4) (pI op 0 5) (pI op 0 6) (pI op 0 7) (pI op 0 8) (g.zp o) (pI op 0 0) (pI op 0 1)
+    return [← binary a b f]
   | "MUL" =>
     let a ← getIn env op 0; let b ← getIn env op 1
     let o := outId op 0
@@ -613,30 +627,30 @@ def evalOp (g : Graph) (env : Env) (op : OpDef) : Except String (List Tensor) :=
             out := out.push (clamp (Float.round v).toInt64.toInt dt.lo dt.hi)
     return [{ shape := [1, OH, OW, C], data := out }]
   | "MEAN" =>
-    -- params: group 0 = reduced axes (of the 4-D input: only H and/or W)
+    -- params: group 0 = reduced axes (resolved, any subset of the dimensions); real-valued mean, requantised
     let a ← getIn env op 0
-    let [n, H, W, C] := a.shape | throw "unsupported:MEAN:rank"
+    let r := a.shape.length
     let axes := (grp op 0).map Int.toNat
-    if n ≠ 1 ∨ axes.any (fun ax => ax ≠ 1 ∧ ax ≠ 2) ∨ axes.isEmpty then throw "unsupported:MEAN:axes"
-    let rh := axes.contains 1
-    let rw := axes.contains 2
+    if axes.isEmpty ∨ axes.any (· ≥ r) then throw "unsupported:MEAN:axes"
     let i := inId op 0
     let o := outId op 0
     let dt := g.dtype o
     match g.scales i, g.scales o with
     | [si], [so] =>
       let ratio := f32ToFloat si / f32ToFloat so
-      let oh := if rh then 1 else H
-      let ow := if rw then 1 else W
-      let cnt := (if rh then H else 1) * (if rw then W else 1)
-      let mut out : Array Int := Array.mkEmpty (oh * ow * C)
-      for oy in [0:oh] do
-        for ox in [0:ow] do
-          for c in [0:C] do
-            let s := sumRange (if rh then H else 1) fun y => sumRange (if rw then W else 1) fun x =>
-              at3 a W C (if rh then y else oy) (if rw then x else ox) c - g.zp i
-            let v := Float.ofInt s / Float.ofNat cnt * ratio
-            out := out.push (clamp ((Float.round v).toInt64.toInt + g.zp o) dt.lo dt.hi)
+      let keptShape := (a.shape.zipIdx).map fun (d, k) => if axes.contains k then 1 else d
+      let redShape := (a.shape.zipIdx).map fun (d, k) => if axes.contains k then d else 1
+      let cnt := prod redShape
+      if cnt = 0 then throw "mean: empty"
+      let n := prod keptShape
+      let mut out : Array Int := Array.mkEmpty n
+      for j in [0:n] do
+        let co := unflatten keptShape j
+        let s := (List.range cnt).foldl (fun (acc : Int) k =>
+          let cr := unflatten redShape k
+          acc + (a.data.getD (flatten a.shape ((co.zip cr).map fun (x, y) => x + y)) 0 - g.zp i)) 0
+        let v := Float.ofInt s / Float.ofNat cnt * ratio
+        out := out.push (clamp ((Float.round v).toInt64.toInt + g.zp o) dt.lo dt.hi)
       let os := g.shape o
       if prod os ≠ out.size then throw "mean: output shape"
       return [{ shape := os, data := out }]
@@ -824,6 +838,16 @@ def verifyParams (g : Graph) (op : OpDef) : Except String Unit := do
     let bits16 := g.dtype o == .i16
     if pN op 0 2 ≠ (if bits16 then 15 else 20) then throw "reference parameter mismatch for ADD/SUB left shift"
     actCheck (pI op 0 0) (pI op 0 1) (pN op 0 9)
+  | "SQUARED_DIFFERENCE" =>
+    let dt := g.dtype o
+    if pN op 0 2 ≠ (if dt == .i16 then 0 else 7) ∨ pI op 0 0 ≠ dt.lo ∨ pI op 0 1 ≠ dt.hi then
+      throw "reference parameter mismatch for SQUARED_DIFFERENCE left shift / range"
+    match qmSquaredDifference (← g.scale1 (inId op 0)) (← g.scale1 (inId op 1)) (← g.scale1 o) (pN op 0 2) with
+    | none => throw "unsupported:scale_outside_normal_range:squared_difference"
+    | some (a, b, c) =>
+      expectEq "SQUARED_DIFFERENCE input 1 multiplier" (some (pI op 0 3, pI op 0 4)) (some a)
+      expectEq "SQUARED_DIFFERENCE input 2 multiplier" (some (pI op 0 5, pI op 0 6)) (some b)
+      expectEq "SQUARED_DIFFERENCE output multiplier" (some (pI op 0 7, pI op 0 8)) (some c)
   | "MUL" =>
     expectEq "MUL multiplier" (some (pI op 0 2, pI op 0 3)) (qmMulFloat (← g.scale1 (inId op 0)) (← g.scale1 (inId op 1)) (← g.scale1 o))
     actCheck (pI op 0 0) (pI op 0 1) (pN op 0 4)
